@@ -241,7 +241,7 @@ class Canon:
                     else:
                         p, flags = os.path.normpath(_q(a[0])), "O_WRONLY|O_CREAT|O_TRUNC"
                     cp = self.path(p)
-                    if cp is None:
+                    if cp is None or "O_PATH" in flags:  # O_PATH: a handle of the harness, not an access
                         if c["ret"] >= 0:
                             fdstate.pop(c["ret"], None)
                         continue
